@@ -5,21 +5,21 @@ CONSTANTS
  Topics <- MC_Topics
  NParts = 2
  Cluster0 <- MC_Cluster0
- VTab <- MC_VTabA
+ VTab <- MC_VTabB
  CRange <- MC_CRange
- Reqs <- MC_Reqs2
- Menu <- MC_MenuQ1
+ Reqs <- MC_Reqs1
+ Menu <- MC_Menu1
  MaxConns = 3
  MaxMoves = 1
- MaxCancels = 0
- MaxCuts = 0
+ MaxCancels = 1
+ MaxCuts = 1
  MaxRefresh = 1
  MaxExpire = 0
  MaxCloseIdle = 0
  Hist = TRUE
- Bug = "firstBroker"
+ Bug = "none"
  AnyConnId = FALSE
- MoveKinds = {"leader"}
+ MoveKinds = {"leader", "remove", "coord"}
 INVARIANTS TypeOK C12_Routing C12_Address C12_Version C12_FollowLeader C12_CacheFilter C06t_OwnResponse C06t_ReleaseOnlyAfterComplete C06t_NoReuseAfterFailure C09t_CancelPrompt
 PROPERTIES C12_GrabIsLatest C06t_DeadStaysDead
 CHECK_DEADLOCK FALSE
